@@ -45,10 +45,20 @@ static unsigned long long vp_input(void)
 #define __CPROVER_havoc_object(p) ((void)0)
 #endif
 
+/* VP_WITNESS_ONLY / VP_NO_WITNESS: the driver's two-pass mode for external SAT solvers
+ * (pass A: all assertions, no witnesses, one solver call; pass B: witnesses only). */
+#ifdef VP_WITNESS_ONLY
+#define VP_ASSERT(c, msg) ((void)0)
+#else
 #define VP_ASSERT(c, msg) __CPROVER_assert((c), msg)
+#endif
 /* reachability witness: the driver expects every property whose description
  * starts with "WITNESS" to be reported FAILED (i.e. reachable). */
+#ifdef VP_NO_WITNESS
+#define VP_WITNESS(msg) ((void)0)
+#else
 #define VP_WITNESS(msg) __CPROVER_assert(0, "WITNESS " msg)
+#endif
 
 static inline uint8_t  vp_u8(void)  { return (uint8_t)vp_input(); }
 static inline uint16_t vp_u16(void) { return (uint16_t)vp_input(); }
